@@ -5,12 +5,28 @@ import (
 	"bufio"
 	"fmt"
 	"os"
+	"strconv"
 	"strings"
+	"time"
 )
 
 // ---- stub `go list` ----
 
 func main() {
+	// concurrent stream of the C20 harness: announce this process and wait until the
+	// controller releases it; the scenario is read after the release
+	if hold := os.Getenv("VERIF_STUB_HOLD"); hold != "" {
+		pid := strconv.Itoa(os.Getpid())
+		os.WriteFile(hold+"/wait."+pid, nil, 0o666)
+		for i := 0; i < 150000; i++ {
+			if _, err := os.Stat(hold + "/go." + pid); err == nil {
+				break
+			}
+			time.Sleep(200 * time.Microsecond)
+		}
+		os.Remove(hold + "/go." + pid)
+		os.Remove(hold + "/wait." + pid)
+	}
 	sc := os.Getenv("VERIF_STUB_SCENARIO")
 	f, err := os.Open(sc)
 	if err != nil {
